@@ -94,8 +94,11 @@ type Sched struct {
 	step    int
 	last    *Task
 	choices []int
-	cidx    int
-	siteOff map[string]bool
+	// decisions beyond the end of choices (Input.TailSeed / TailPct)
+	tailSeed uint64
+	tailPct  int
+	cidx     int
+	siteOff  map[string]bool
 
 	lines     []string // event log (pure function of the decisions)
 	keepLog   bool
@@ -242,6 +245,8 @@ func (s *Sched) pick(all []*Task) *Task {
 	if !s.noChoice {
 		if s.cidx < len(s.choices) {
 			c = s.choices[s.cidx]
+		} else if s.tailPct > 0 {
+			c = tailChoice(s.tailSeed, s.tailPct, s.cidx)
 		}
 		s.cidx++
 	}
@@ -275,3 +280,18 @@ func quiesce() { synctest.Wait() }
 
 // sleep advances the bubble clock.
 func simSleep(d time.Duration) { time.Sleep(d) }
+
+func tailChoice(seed uint64, pct int, idx int) int {
+	z := splitmix64(seed + uint64(idx)*0x9e3779b97f4a7c15)
+	if int(z%100) < pct {
+		return 1 + int((z>>32)%4)
+	}
+	return 0
+}
+
+func splitmix64(x uint64) uint64 {
+	x += 0x9e3779b97f4a7c15
+	x = (x ^ (x >> 30)) * 0xbf58476d1ce4e5b9
+	x = (x ^ (x >> 27)) * 0x94d049bb133111eb
+	return x ^ (x >> 31)
+}
